@@ -117,13 +117,36 @@ KpVerdict(e, D) ==
        ELSE <<j, c>>
 
 \* candidate explanations of an event the strict specification rejects, smallest first
-DevSets == << {DevNoDiscard}, {DevKernSign}, {DevNoCap},
-              {DevNoDiscard, DevKernSign}, {DevNoDiscard, DevNoCap}, {DevKernSign, DevNoCap},
-              {DevNoDiscard, DevKernSign, DevNoCap} >>
-DevKeys == << DevNoDiscard, DevKernSign, DevNoCap,
-              DevNoDiscard \o "+" \o DevKernSign, DevNoDiscard \o "+" \o DevNoCap,
+DevSets == << {DevNoDiscard},
+              {DevKernSign},
+              {DevNoCap},
+              {DevScanRun},
+              {DevNoDiscard, DevKernSign},
+              {DevNoDiscard, DevNoCap},
+              {DevNoDiscard, DevScanRun},
+              {DevKernSign, DevNoCap},
+              {DevKernSign, DevScanRun},
+              {DevNoCap, DevScanRun},
+              {DevNoDiscard, DevKernSign, DevNoCap},
+              {DevNoDiscard, DevKernSign, DevScanRun},
+              {DevNoDiscard, DevNoCap, DevScanRun},
+              {DevKernSign, DevNoCap, DevScanRun},
+              {DevNoDiscard, DevKernSign, DevNoCap, DevScanRun} >>
+DevKeys == << DevNoDiscard,
+              DevKernSign,
+              DevNoCap,
+              DevScanRun,
+              DevNoDiscard \o "+" \o DevKernSign,
+              DevNoDiscard \o "+" \o DevNoCap,
+              DevNoDiscard \o "+" \o DevScanRun,
               DevKernSign \o "+" \o DevNoCap,
-              DevNoDiscard \o "+" \o DevKernSign \o "+" \o DevNoCap >>
+              DevKernSign \o "+" \o DevScanRun,
+              DevNoCap \o "+" \o DevScanRun,
+              DevNoDiscard \o "+" \o DevKernSign \o "+" \o DevNoCap,
+              DevNoDiscard \o "+" \o DevKernSign \o "+" \o DevScanRun,
+              DevNoDiscard \o "+" \o DevNoCap \o "+" \o DevScanRun,
+              DevKernSign \o "+" \o DevNoCap \o "+" \o DevScanRun,
+              DevNoDiscard \o "+" \o DevKernSign \o "+" \o DevNoCap \o "+" \o DevScanRun >>
 
 \* the first candidate under which the event is accepted (0 = none); the specification must be
 \* consistent with itself under that candidate too
